@@ -1,3 +1,6 @@
+#[cfg(feature = "verif-hooks")]
+use crate::verif_hooks::Instant;
+#[cfg(not(feature = "verif-hooks"))]
 use std::time::Instant;
 
 /// Internal wrapper that tracks when a value was inserted into the cache.
